@@ -251,6 +251,54 @@ class FakePath:
         return n[k:] if k > 0 else ""
 
     @property
+    def stem(self):
+        n = self.name
+        k = n.rfind(".")
+        return n[:k] if k > 0 else n
+
+    @property
+    def suffixes(self):
+        n = self.name.lstrip(".")
+        return ["." + x for x in n.split(".")[1:]]
+
+    @property
+    def parts(self):
+        return tuple((["/"] if self._p.startswith("/") else []) + [x for x in self._p.split("/") if x])
+
+    def with_suffix(self, suffix):
+        return self.with_name(self.stem + suffix)
+
+    def with_stem(self, stem):
+        return self.with_name(stem + self.suffix)
+
+    def joinpath(self, *others):
+        p = self
+        for o in others:
+            p = p / o
+        return p
+
+    def as_posix(self):
+        return self._p
+
+    def resolve(self, *a, **k):
+        return self
+
+    def absolute(self):
+        return self
+
+    def relative_to(self, other):
+        o = str(other).rstrip("/") + "/"
+        if not self._p.startswith(o):
+            raise ValueError("%r is not in the subpath of %r" % (self._p, str(other)))
+        return FakePath(self._p[len(o):], self._fs)
+
+    def is_file(self):
+        return self._p in self._fs.files
+
+    def is_dir(self):
+        return self._p in self._fs.dirs or any(f.startswith(self._p.rstrip("/") + "/") for f in self._fs.files)
+
+    @property
     def parent(self):
         if "/" not in self._p:
             return FakePath(".", self._fs)
